@@ -642,6 +642,10 @@ class Nodes:
         if isinstance(value, NodeCoords):
             return Nodes.typed_value(value.node)
 
+        if isinstance(value, ScalarBoolean):
+            # An anchored boolean; it is an int whose text is 0 or 1
+            return bool(value)
+
         cased_value = value
         lower_value = str(value).lower()
 
